@@ -1,9 +1,8 @@
 (* C08 -- property theorems only.  Statements are about the structural model of the decompositions
    (Model/Structure.v: rank validators, shape flow, loop skeleton of the CP drivers) and, over R, about
    matrices given as functions nat -> nat -> R with explicit dimensions (Proofs/StructureProofsR.v).
-   `_partial` = holds under the named extra hypothesis; `_refuted` = witness that the hypothesis is needed
-   for the code as it is (known findings); `_fix_` = the same statement at full strength for the skeleton of the
-   candidate repair. *)
+   `_partial` = holds under the named extra hypothesis; `_refuted` = witnesses that the hypothesis is needed
+   (here: for the control flow before the repairs 3de556b / fe25b5c, kept as regression witnesses). *)
 From Coq Require Import List Arith ZArith QArith Reals Bool Lia.
 From TLV Require Import Base.Shape Base.Tensor Base.RSum Model.Structure Proofs.StructureProofs Proofs.StructureProofsR.
 Import ListNotations.
@@ -78,61 +77,32 @@ Print Assumptions C08_parafac_structure.
 
 (* ================================================================== the normalisation contract (loop skeleton) *)
 (* St: any state space; sweep: one ALS / MU / HALS sweep; normalise: cp_normalize; decisions: per executed sweep
-   (callback asked to stop, convergence test fired) -- every history is a decision sequence *)
+   (callback asked to stop, convergence test fired) -- every history is a decision sequence; n: the iteration cap *)
 
-(* the code as it is: normalize_factors = True => normalised result, for every cap (0 and 1 included), every decision
-   sequence without a callback stop, unless a user initialisation is returned without any sweep *)
-Theorem C08_cp_normalised_partial : forall (St : Type) (sweep normalise : St -> St) (Normalised : St -> Prop),
+(* normalize_factors = True => the returned state is normalised: for every cap (0 and 1 included), every decision
+   sequence (cap exit, convergence exit, callback stop), every kind of initialisation, all modes fixed or not *)
+Theorem C08_cp_normalised : forall (St : Type) (sweep normalise : St -> St) (Normalised : St -> Prop),
   (forall s, Normalised (normalise s)) ->
   forall tol_set ik all_fixed n decisions s0,
-  no_callback_stop decisions -> ik <> InitUser \/ (0 < n /\ all_fixed = false) ->
   Normalised (cp_run St sweep normalise true tol_set ik all_fixed n decisions s0).
 Proof. exact cp_run_normalised. Qed.
-Print Assumptions C08_cp_normalised_partial.
-(* both exclusions are necessary (known findings user_init_and_no_sweep, callback_stop_not_normalised) *)
-Theorem C08_cp_normalised_user_init_refuted :
-  (forall tol_set decisions, ghost_run true tol_set InitUser false 0 decisions = false) /\
-  (forall tol_set n decisions, ghost_run true tol_set InitUser true n decisions = false).
-Proof. exact (conj ghost_user_cap0 ghost_user_all_fixed). Qed.
-Print Assumptions C08_cp_normalised_user_init_refuted.
-Theorem C08_cp_normalised_callback_stop_refuted :
-  forall tol_set ik n decisions, ghost_run true tol_set ik false (S n) ((true, false) :: decisions) = false.
-Proof. exact ghost_callback_stop. Qed.
-Print Assumptions C08_cp_normalised_callback_stop_refuted.
-
-(* normalize_factors = False: the weights are all ones on EVERY path (every cap, every decision sequence, callback stops included) *)
+Print Assumptions C08_cp_normalised.
+(* normalize_factors = False => the weights are all ones, on every path *)
 Theorem C08_cp_unit_weights : forall (St : Type) (sweep normalise : St -> St) (UnitWeights : St -> Prop),
   (forall s, UnitWeights s -> UnitWeights (sweep s)) ->
   forall tol_set ik all_fixed n decisions s0,
   UnitWeights s0 -> UnitWeights (cp_run St sweep normalise false tol_set ik all_fixed n decisions s0).
 Proof. exact cp_run_unit_weights. Qed.
 Print Assumptions C08_cp_unit_weights.
+(* non-vacuity: a state space on which a sweep really destroys normalisation *)
+Example C08_cp_normalised_ex : forall tol_set ik all_fixed n decisions, ghost_run true tol_set ik all_fixed n decisions = true.
+Proof. exact ghost_normalised. Qed.
 
-(* the candidate repair: the contract at full strength, and no change on the paths that were right *)
-Theorem C08_cp_fix_normalised : forall (St : Type) (sweep normalise : St -> St) (Normalised : St -> Prop),
-  (forall s, Normalised (normalise s)) ->
-  forall tol_set ik all_fixed n decisions s0,
-  Normalised (cp_run_fix St sweep normalise true tol_set ik all_fixed n decisions s0).
-Proof. exact cp_run_fix_normalised. Qed.
-Print Assumptions C08_cp_fix_normalised.
-Theorem C08_cp_fix_unit_weights : forall (St : Type) (sweep normalise : St -> St) (UnitWeights : St -> Prop),
-  (forall s, UnitWeights s -> UnitWeights (sweep s)) ->
-  forall tol_set ik all_fixed n decisions s0,
-  UnitWeights s0 -> UnitWeights (cp_run_fix St sweep normalise false tol_set ik all_fixed n decisions s0).
-Proof. exact cp_run_fix_unit_weights. Qed.
-Print Assumptions C08_cp_fix_unit_weights.
-Theorem C08_cp_fix_same : forall (St : Type) (sweep normalise : St -> St) nf tol_set ik all_fixed n decisions s0,
-  no_callback_stop decisions -> ik <> InitUser ->
-  cp_run_fix St sweep normalise nf tol_set ik all_fixed n decisions s0 = cp_run St sweep normalise nf tol_set ik all_fixed n decisions s0.
-Proof. exact cp_run_fix_same. Qed.
-Print Assumptions C08_cp_fix_same.
-
-(* the instance compared with the implementation (event traces of factor updates and cp_normalize calls) *)
-Theorem C08_trace_ends_normalised_partial : forall d tol_set ik n_modes fixed n decisions,
-  no_callback_stop decisions -> ik <> InitUser \/ (0 < n /\ all_fixed d n_modes fixed = false) ->
+(* the instance compared with the implementation on every run (event traces of factor updates and cp_normalize calls) *)
+Theorem C08_trace_ends_normalised : forall d tol_set ik n_modes fixed n decisions,
   ends_normalised (trace_run d true tol_set ik n_modes fixed n decisions) = true.
 Proof. exact trace_run_ends_normalised. Qed.
-Print Assumptions C08_trace_ends_normalised_partial.
+Print Assumptions C08_trace_ends_normalised.
 Theorem C08_trace_never_normalises : forall d tol_set ik n_modes fixed n decisions,
   any_normalise (trace_run d false tol_set ik n_modes fixed n decisions) = false.
 Proof. exact trace_run_never_normalises. Qed.
@@ -141,13 +111,28 @@ Example C08_trace_ex : trace_run NnMu true true InitSvd 3 [0] 2 [(false, false);
                        = [EvN; EvU 1; EvN; EvU 2; EvN; EvU 1; EvN; EvU 2; EvN].
 Proof. vm_compute. reflexivity. Qed.
 
-(* regression witness for fix fe25b5c: the earlier control flow (break before the end-of-sweep normalisation) returned
-   un-normalised factors on the convergence exit; the present one does not *)
-Theorem C08_convergence_exit_regression :
-  ghost_run_pinned true true 2 [false; true] = false /\
-  (forall ik, ghost_run true true ik false 2 [(false, false); (false, true)] = true).
-Proof. exact (conj ghost_pinned_break ghost_repaired_break). Qed.
-Print Assumptions C08_convergence_exit_regression.
+(* regression witnesses.  Before 3de556b a user initialisation was returned as it came when no sweep ran, and a callback
+   stop returned the un-normalised iterate; on all other paths that control flow was right and equals the present one.
+   Before fe25b5c the convergence exit returned un-normalised factors. *)
+Theorem C08_old_flow_normalised_partial : forall (St : Type) (sweep normalise : St -> St) (Normalised : St -> Prop),
+  (forall s, Normalised (normalise s)) ->
+  forall tol_set ik all_fixed n decisions s0,
+  no_callback_stop decisions -> ik <> InitUser \/ (0 < n /\ all_fixed = false) ->
+  Normalised (cp_run_old St sweep normalise true tol_set ik all_fixed n decisions s0).
+Proof. exact cp_run_old_normalised. Qed.
+Print Assumptions C08_old_flow_normalised_partial.
+Theorem C08_old_flow_refuted :
+  (forall tol_set decisions, ghost_run_old true tol_set InitUser false 0 decisions = false) /\
+  (forall tol_set n decisions, ghost_run_old true tol_set InitUser true n decisions = false) /\
+  (forall tol_set ik n decisions, ghost_run_old true tol_set ik false (S n) ((true, false) :: decisions) = false) /\
+  ghost_run_pinned true true 2 [false; true] = false.
+Proof. exact (conj ghost_old_user_cap0 (conj ghost_old_user_all_fixed (conj ghost_old_callback_stop ghost_pinned_break))). Qed.
+Print Assumptions C08_old_flow_refuted.
+Theorem C08_repair_changes_nothing_else : forall (St : Type) (sweep normalise : St -> St) nf tol_set ik all_fixed n decisions s0,
+  no_callback_stop decisions -> ik <> InitUser ->
+  cp_run St sweep normalise nf tol_set ik all_fixed n decisions s0 = cp_run_old St sweep normalise nf tol_set ik all_fixed n decisions s0.
+Proof. exact cp_run_same. Qed.
+Print Assumptions C08_repair_changes_nothing_else.
 
 (* ================================================================== canonical form over R *)
 Local Open Scope R_scope.
